@@ -244,6 +244,16 @@ mut("c15-foreach-cond-wait-if-instead-of-for", [(L, LFE_FULL, """	var mu sync.Mu
 	mu.Unlock()
 	return ego.Ego()""")], ["C15"], note="waits once on a Cond that every worker signals: returns after the first callback that finishes while the caller waits")
 
+mut("c15-foreach-select-default-poll", [(L, LFE_FULL, SEL_FE.replace("""	select {
+	case <-done:
+	}""", """	for finished := false; !finished; {
+		select {
+		case <-done:
+			finished = true
+		default:
+		}
+	}"""))], [], ["C15"], note="PRESERVING: busy-polls the done channel with select/default")
+
 # ---------------------------------------------------------------- C04
 mut("c04-accept-eof-after-string", [(P, """	// No matching rule - error
 	return nil, 0, fmt.Errorf("not a valid JSON - unexpected end of input")
